@@ -33,37 +33,90 @@ theorem nice_voting (pv : Nat) : Nice (voting pv) := by
   unfold voting Nice
   by_cases h0 : pv = 0 <;> by_cases h1 : pv = 1 <;> simp only [h0, h1, if_true, if_false] <;> decide
 
+theorem nice_processProducer (pv : Nat) : Nice (processProducer pv) := by
+  unfold processProducer Nice
+  by_cases h1 : pv < 1 <;> simp only [h1, if_true, if_false] <;> decide
+
+theorem nice_returnVotes (pv : Nat) : Nice (returnVotes pv) := by
+  unfold returnVotes Nice
+  by_cases h1 : pv = 0 <;> simp only [h1, if_true, if_false] <;> decide
+
+theorem nice_crcProposalWithdraw (pv : Nat) : Nice (crcProposalWithdraw pv) := by
+  unfold crcProposalWithdraw Nice
+  by_cases h1 : pv = 1 <;> simp only [h1, if_true, if_false] <;> decide
+
 theorem covered_cases {ty : Nat} {f : Nat → Ty} (h : payloadOf ty = .covered f) :
-    f = (fun _ => coinBase) ∨ f = (fun _ => transferAsset) ∨ f = producerInfo ∨
-    f = (fun _ => dposIllegalBlocks) ∨ f = (fun _ => inactiveArbitrators) ∨
-    f = nextTurnDPOSInfo ∨ f = crcProposalReview ∨ f = voting := by
+    f = (fun _ => coinBase) ∨
+    f = (fun _ => transferAsset) ∨
+    f = (fun _ => dposIllegalBlocks) ∨
+    f = (fun _ => inactiveArbitrators) ∨
+    f = (fun _ => record) ∨
+    f = (fun _ => sideChainPow) ∨
+    f = (fun _ => emptyPayload) ∨
+    f = (fun _ => activateProducer) ∨
+    f = (fun _ => updateVersion) ∨
+    f = (fun _ => hashList) ∨
+    f = (fun _ => crCouncilMemberClaimNode) ∨
+    f = (fun _ => revertToPOW) ∨
+    f = (fun _ => revertToDPOS) ∨
+    f = (fun _ => recordSponsor) ∨
+    f = producerInfo ∨
+    f = nextTurnDPOSInfo ∨
+    f = crcProposalReview ∨
+    f = voting ∨
+    f = processProducer ∨
+    f = returnVotes ∨
+    f = crcProposalWithdraw := by
   unfold payloadOf at h
   split at h <;> simp_all
 
 theorem nice_covered {ty : Nat} {f : Nat → Ty} (h : payloadOf ty = .covered f) (pv : Nat) :
     Nice (f pv) := by
-  rcases covered_cases h with rfl | rfl | rfl | rfl | rfl | rfl | rfl | rfl
+  rcases covered_cases h with rfl | rfl | rfl | rfl | rfl | rfl | rfl | rfl | rfl | rfl | rfl | rfl | rfl | rfl | rfl | rfl | rfl | rfl | rfl | rfl | rfl
   · show Nice coinBase; unfold Nice; decide
   · show Nice transferAsset; unfold Nice; decide
-  · exact nice_producerInfo pv
   · show Nice dposIllegalBlocks; unfold Nice; decide
   · show Nice inactiveArbitrators; unfold Nice; decide
+  · show Nice record; unfold Nice; decide
+  · show Nice sideChainPow; unfold Nice; decide
+  · show Nice emptyPayload; unfold Nice; decide
+  · show Nice activateProducer; unfold Nice; decide
+  · show Nice updateVersion; unfold Nice; decide
+  · show Nice hashList; unfold Nice; decide
+  · show Nice crCouncilMemberClaimNode; unfold Nice; decide
+  · show Nice revertToPOW; unfold Nice; decide
+  · show Nice revertToDPOS; unfold Nice; decide
+  · show Nice recordSponsor; unfold Nice; decide
+  · exact nice_producerInfo pv
   · exact nice_nextTurnDPOSInfo pv
   · exact nice_crcProposalReview pv
   · exact nice_voting pv
+  · exact nice_processProducer pv
+  · exact nice_returnVotes pv
+  · exact nice_crcProposalWithdraw pv
 
 /-- beyond version 4 no covered payload changes its layout (so `txBody`'s default case is right) -/
 theorem covered_stable {ty : Nat} {f : Nat → Ty} (h : payloadOf ty = .covered f) (pv : Nat)
     (hpv : 4 ≤ pv) : f pv = f 4 := by
-  rcases covered_cases h with rfl | rfl | rfl | rfl | rfl | rfl | rfl | rfl
+  rcases covered_cases h with rfl | rfl | rfl | rfl | rfl | rfl | rfl | rfl | rfl | rfl | rfl | rfl | rfl | rfl | rfl | rfl | rfl | rfl | rfl | rfl | rfl
+  · rfl
+  · rfl
+  · rfl
+  · rfl
+  · rfl
+  · rfl
+  · rfl
+  · rfl
+  · rfl
+  · rfl
+  · rfl
+  · rfl
   · rfl
   · rfl
   · unfold producerInfo
     have h1 : 1 ≤ pv := by omega
     have h2 : ¬ pv < 2 := by omega
     simp [h1, h2]
-  · rfl
-  · rfl
   · unfold nextTurnDPOSInfo
     have h1 : 1 ≤ pv := by omega
     simp [h1]
@@ -74,6 +127,15 @@ theorem covered_stable {ty : Nat} {f : Nat → Ty} (h : payloadOf ty = .covered 
     have h0 : ¬ pv = 0 := by omega
     have h1 : ¬ pv = 1 := by omega
     simp [h0, h1]
+  · unfold processProducer
+    have h1 : ¬ pv < 1 := by omega
+    simp [h1]
+  · unfold returnVotes
+    have h0 : ¬ pv = 0 := by omega
+    simp [h0]
+  · unfold crcProposalWithdraw
+    have h1 : ¬ pv = 1 := by omega
+    simp [h1]
 
 theorem nice_output (v9 : Bool) : Nice (output v9) := by
   cases v9 <;> unfold Nice <;> decide
